@@ -403,7 +403,8 @@ class RainbowDQN(RLAlgorithm):
                 else:
                     elementwise_loss = n_step_elementwise_loss
 
-            loss = torch.mean(elementwise_loss * weights)
+            # (the buffer returns the weights as a column)
+            loss = torch.mean(elementwise_loss * weights.reshape(-1))
 
         else:
             if n_step:
